@@ -262,35 +262,51 @@ where
         let mut pos = 0;
         let mut last_offset_slot = None::<&mut [u8]>;
 
+        let mut error = None;
         for item_emplacer in self.iter {
             if data.len() < offset_size {
-                return Err(Error {
+                error = Some(Error {
                     kind: ErrorKind::InsufficientSize,
                     pos,
                 });
+                break;
             }
             let (offset_slot, payload) = data.split_at_mut(offset_size);
-            let item = item_emplacer.emplace(payload)?;
-            let payload_size = ceil_mul(item.size(), FlexVec::<T, L>::ALIGN);
-            let offset = offset_size + payload_size;
-            L::from_usize(offset)
-                .and_then(|o| if o < L::max_value() { Some(o) } else { None })
-                .ok_or(Error {
-                    kind: ErrorKind::InsufficientSize,
-                    pos,
-                })?
-                .emplace(offset_slot)?;
-            last_offset_slot = Some(offset_slot);
-
-            data = payload.split_at_mut(payload_size).1;
-            pos += offset;
+            let sealed = item_emplacer.emplace(payload).and_then(|item| {
+                let payload_size = ceil_mul(item.size(), FlexVec::<T, L>::ALIGN);
+                L::from_usize(offset_size + payload_size)
+                    .and_then(|o| if o < L::max_value() { Some(o) } else { None })
+                    .ok_or(Error {
+                        kind: ErrorKind::InsufficientSize,
+                        pos,
+                    })
+                    .map(|o| (o, payload_size))
+            });
+            match sealed {
+                Ok((offset, payload_size)) => {
+                    offset.emplace(offset_slot)?;
+                    last_offset_slot = Some(offset_slot);
+                    data = payload.split_at_mut(payload_size).1;
+                    pos += offset_size + payload_size;
+                }
+                Err(e) => {
+                    error = Some(e);
+                    data = offset_slot;
+                    break;
+                }
+            }
         }
+        // Terminate the chain after the items that have been emplaced. This is done also when an item
+        // could not be emplaced, so that the memory holds a valid vector even if the initialization fails.
         match last_offset_slot {
             Some(offset_slot) => L::max_value().emplace(offset_slot)?,
             None => L::zero().emplace(data)?,
         };
 
-        Ok(vec)
+        match error {
+            Some(e) => Err(e),
+            None => Ok(vec),
+        }
     }
 }
 
